@@ -48,6 +48,16 @@ import (
 	"github.com/sourcenetwork/defradb/internal/keys"
 )
 
+// vMutexHeld reports whether mu is currently locked. In symgo the mutex is ghost state and this is an
+// intrinsic; natively TryLock tells.
+func vMutexHeld(mu *sync.Mutex) bool {
+	if mu.TryLock() {
+		mu.Unlock()
+		return false
+	}
+	return true
+}
+
 // ---- patched call sites ----
 
 var verifPush func(evt event.Update, pid peer.ID) error
@@ -191,7 +201,38 @@ func lNewEnv() *lEnv {
 	}
 	verifSpawned = nil
 	verifPush = e.push
+	e.db.store.onCommit = e.duringCommit
 	return e
+}
+
+// between the reads of a transaction of the retry bookkeeping and its commit, something else may run to completion:
+// conf nested=4: a commit whose push fails (its failure handling waits for the retry mutex, so this cannot happen
+// while the mutex is held); conf nested=5: a round of the retry loop (retryReplicators; the retries it starts run later).
+// A nested operation that would have to wait for a mutex held by the interrupted one is not a schedule of this
+// sequential form: the solver run drops such paths (counted as blocked).
+func (e *lEnv) duringCommit() {
+	if e.quiescent || e.depth != 0 || e.nested == 0 {
+		return
+	}
+	switch vConfInt("nested") {
+	case 4:
+		if vMutexHeld(e.p.handleRetryMutex) || !vBool("commit-during-transaction") {
+			return
+		}
+		e.nested--
+		e.depth++
+		e.commit(vChoose("nested-doc", 2))
+		e.depth--
+	case 5:
+		if !vBool("retry-loop-during-transaction") {
+			return
+		}
+		e.nested--
+		e.depth++
+		vObserve("tick-start", 0)
+		e.p.retryReplicators(e.ctx)
+		e.depth--
+	}
 }
 
 // a commit on document d of the sending node: a new composite block on top of the current head, stored, made
@@ -264,7 +305,7 @@ func (e *lEnv) push(evt event.Update, pid peer.ID) error {
 	vObserve("push", d*100+v)
 	vObserve("retry", evt.IsRetry)
 	// while a retried push is on the wire, another commit may be made and pushed
-	if evt.IsRetry && !e.quiescent && e.depth == 0 && e.nested > 0 && vBool("commit-during-retry") {
+	if evt.IsRetry && vConfInt("nested") < 4 && !e.quiescent && e.depth == 0 && e.nested > 0 && vBool("commit-during-retry") {
 		e.nested--
 		nd := d
 		switch vConfInt("nested") {
@@ -302,7 +343,8 @@ func (e *lEnv) tick() {
 }
 
 // VerifH_C15_Ledger — conf: events (length of the history), nested (0: no commit during a retried push,
-// 1: on the other document, 2: on the document being retried, 3: either), rounds (retry rounds after traffic stops)
+// 1: on the other document, 2: on the document being retried, 3: either, 4 / 5: a commit / a round of the retry loop between the
+// reads and the commit of a transaction of the retry bookkeeping), rounds (retry rounds after traffic stops)
 func VerifH_C15_Ledger() {
 	e := lNewEnv()
 	n := vConfInt("events")
